@@ -9,23 +9,23 @@
 (***************************************************************************)
 EXTENDS DequeCore, FiniteSets, Json
 
-CONSTANTS Configs, Depth, MaxPerCond
+CONSTANTS Configs, Depth, MaxPerCond, MaxBurst
 
 CfgStep == {NoLimit, Hard(1), Hard(2), Quota(2, 1, 0)}
 
-VARIABLES q, blocked, cancelled, held, hist
-vars == <<q, blocked, cancelled, held, hist>>
-view == <<Len(q.items), q.closed, q.tr, {<<p.op, p.id \in cancelled>> : p \in blocked}, Cardinality(blocked), held # 0>>
+VARIABLES q, blocked, cancelled, held, hist, blen
+vars == <<q, blocked, cancelled, held, hist, blen>>
+view == <<Len(q.items), q.closed, q.tr, {<<p.op, p.id \in cancelled>> : p \in blocked}, Cardinality(blocked), held # 0, blen>>
 
 Init == \E tr \in {c \in Configs : c.kind # "quota" \/ c.soft <= c.hard} :
-          /\ q = QNew(tr) /\ blocked = {} /\ cancelled = {} /\ held = 0
-          /\ hist = <<[op |-> "new", arg |-> tr.kind, target |-> 0, window |-> FALSE,
+          /\ q = QNew(tr) /\ blocked = {} /\ cancelled = {} /\ held = 0 /\ blen = 0
+          /\ hist = <<[op |-> "new", arg |-> tr.kind, target |-> 0, window |-> FALSE, burst |-> FALSE,
                        hard |-> tr.hard, soft |-> tr.soft, credit |-> tr.credit \div Scale]>>
 
 Id == Len(hist) + 1
 Val == "v" \o ToString(Id)
-Sched(op, arg, target, window) ==
-  hist' = Append(hist, [op |-> op, arg |-> arg, target |-> target, window |-> window,
+Sched(op, arg, target, window, burst) ==
+  hist' = Append(hist, [op |-> op, arg |-> arg, target |-> target, window |-> window, burst |-> burst,
                         hard |-> 0, soft |-> 0, credit |-> 0])
 
 IsCancelled(p) == p.id \in cancelled
@@ -36,10 +36,18 @@ Class(op) == CASE op \in {"wfront", "drecv"} -> "front"
                [] op = "wback" -> "back"
                [] OTHER -> "push"
 
-NB(op) == /\ Settled /\ held = 0
+\* A BURST step (b = TRUE) is issued by the driver right after the previous step, WITHOUT waiting for
+\* quiescence: blocked operations that the previous steps enabled may or may not have run in between
+\* (Resolve is independent), so "two Adds before any waiter runs", "Add then Cancel before the woken
+\* waiter re-acquires the lock", "Remove then Close before the parked producer runs" are all schedules.
+\* The harness runs the steps of a burst synchronously from one goroutine (with GOMAXPROCS=1 the whole
+\* burst is atomic with respect to the parked goroutines; with more procs the other orders are sampled).
+CanBurst == blen < MaxBurst /\ Len(hist) > 1 /\ held = 0
+NB(op, b) == /\ (b \/ Settled) /\ (b => CanBurst) /\ held = 0
           /\ LET arg == IF op \in PushOps THEN Val ELSE "" IN
              /\ \E o \in Apply(q, op, arg, FALSE) : q' = o.q
-             /\ Sched(op, arg, 0, FALSE)
+             /\ Sched(op, arg, 0, FALSE, b)
+          /\ blen' = (IF b THEN blen + 1 ELSE 0)
           /\ UNCHANGED <<blocked, cancelled, held>>
 
 StartB(op, window) ==
@@ -48,24 +56,25 @@ StartB(op, window) ==
   /\ LET arg == IF op \in PushOps THEN Val ELSE "" IN
      /\ window => ~Enabled(q, op, arg, FALSE)
      /\ blocked' = blocked \cup {[id |-> Id, op |-> op, arg |-> arg]}
-     /\ Sched(op, arg, 0, window)
-  /\ held' = IF window THEN Id ELSE 0
+     /\ Sched(op, arg, 0, window, FALSE)
+  /\ held' = (IF window THEN Id ELSE 0) /\ blen' = 0
   /\ UNCHANGED <<q, cancelled>>
 
-Cancel(p) == /\ Settled /\ p \in blocked /\ ~IsCancelled(p)
-             /\ held # 0 => p.id = held
-             /\ cancelled' = cancelled \cup {p.id} /\ held' = 0
-             /\ Sched("cancel", "", p.id, FALSE)
-             /\ UNCHANGED <<q, blocked>>
+Cancel(p, b) == /\ (b \/ Settled) /\ (b => CanBurst) /\ p \in blocked /\ ~IsCancelled(p)
+                /\ held # 0 => p.id = held
+                /\ cancelled' = cancelled \cup {p.id} /\ held' = 0
+                /\ Sched("cancel", "", p.id, FALSE, b)
+                /\ blen' = (IF b THEN blen + 1 ELSE 0)
+                /\ UNCHANGED <<q, blocked>>
 
 Resolve(p) == /\ p \in blocked /\ En(p) /\ held = 0
               /\ \E o \in Apply(q, p.op, p.arg, IsCancelled(p)) : q' = o.q
               /\ blocked' = blocked \ {p}
-              /\ UNCHANGED <<cancelled, held, hist>>
+              /\ UNCHANGED <<cancelled, held, hist, blen>>
 
-Driver == \/ \E op \in {"pushf", "pushb", "popf", "popb", "fpushf", "fpushb", "nbsend", "len", "dlen", "close"} : NB(op)
+Driver == \/ \E op \in {"pushf", "pushb", "popf", "popb", "fpushf", "fpushb", "nbsend", "len", "dlen", "close"} , b \in BOOLEAN : NB(op, b)
           \/ \E op \in BlockingOps, w \in BOOLEAN : StartB(op, w)
-          \/ \E p \in blocked : Cancel(p)
+          \/ \E p \in blocked, b \in BOOLEAN : Cancel(p, b)
 
 Next == \/ Len(hist) < Depth /\ Driver
         \/ \E p \in blocked : Resolve(p)
